@@ -549,8 +549,8 @@ class Program:
         for m in self.modules.values():
             yield from m.all_functions
 
-    def find_class(self, name: str) -> ClassInfo:
-        found = [c for c in self.all_classes() if c.name == name]
+    def find_class(self, name: str, package: str | None = None) -> ClassInfo:
+        found = [c for c in self.all_classes() if c.name == name and (package is None or c.module.name.startswith(f'{PKG}.{package}'))]
         if len(found) != 1:
             raise AnalysisError(f'class {name}: {len(found)} definitions found')
         return found[0]
